@@ -110,9 +110,12 @@ def translate_vmt_blocks() -> tuple[str, dict]:
             and isinstance(call.args[1], ast.Name) and call.args[1].id == loop.target.id):
         raise TranslateError(f'{REL}: _write_block line {loop.lineno}: the recursive call is not `_write_block({fname}, child, ...)`')
     ind = call.args[2]
-    if not (isinstance(ind, ast.BinOp) and isinstance(ind.op, ast.Add) and isinstance(ind.left, ast.Name) and ind.left.id == iname):
+    if isinstance(ind, ast.Name) and ind.id == iname:
+        step = ''                       # children at the indent of their parent: layout only
+    elif isinstance(ind, ast.BinOp) and isinstance(ind.op, ast.Add) and isinstance(ind.left, ast.Name) and ind.left.id == iname:
+        step = _const_str(ind.right, f'_write_block line {loop.lineno}')
+    else:
         raise TranslateError(f'{REL}: _write_block line {loop.lineno}: the indent of the children is not `{iname} + <literal>`')
-    step = _const_str(ind.right, f'_write_block line {loop.lineno}')
     t_open = _template(tc, w_open, env, '_write_block open')
     t_close = _template(tc, w_close, env, '_write_block close')
     t_leaf = _template(tc, w_leaf, env, '_write_block leaf')
